@@ -25,6 +25,12 @@ library) and one argument object whose contents are replaced between the calls (
 round trips of AccSignal, Signal and Cluster members in every cache state followed by reads, resets, mutators, assignments
 through the public attribute names and refused operations on copy and original (drive_protocols): every read is judged online
 by the monitor and, driver side, against the reference transform of the values that object has at that moment.
+Round 5 (audit items 28-33): the time step in every scalar form (Python int / float / bool, numpy float64 / float32 / int64 /
+int32 / bool_, 0-d arrays - snapshot at call entry, judged with the entry value, bit-for-bit unchanged afterwards:
+dt-unchanged(...)); the interp flag at its default value as False / np.False_ / 0-d bool array / 0; bool-dtype records (array,
+read-only array, list of Python bools) in every record class; user-given settings (smoothing frequencies above the Nyquist
+frequency, response periods below 2 dt, a Fourier spectrum on an explicitly requested grid) unchanged by the Stockwell reads
+(settings-unchanged(...)); every returned array overwritten by the caller before the same call is made again.
 """
 import collections
 import math
@@ -82,6 +88,16 @@ RULE = ('cases = (record, container, implementation | dt) calls of the real func
         'record), 12 refused operations (add_series of a wrong length, add_signal with another dt / a string, three bad cut-offs, '
         'negative polynomial order, ragged / scalar / nan / inf reset); the touched object is read after every step, both objects '
         'twice at the end; a mutator that raises in a same-object history is now followed by a judged call as well. '
+        'Round 5: containers also bool / read-only bool / list of Python bools (rectangular pulses: record > median; 3 of 23 '
+        'container slots, every record class); the third transform call of a definition case passes interp as np.False_ / 0-d bool '
+        'array / 0 / np.bool_(False), the scipy variant cycles through all eight spellings; every second definition case ends with '
+        'the caller overwriting all three transforms (then both implementations and the inverse are asked again, the inverse '
+        'overwritten and asked once more), every case overwrites the array-level trace and asks again; one dt in eight (definition '
+        'part, every-N block) / one sinusoid in three (other blocks) uses a scalar form out of Python int / bool, numpy float64 / '
+        'float32 / int64 / int32 / bool_, 0-d float64 / float32 / int64 arrays, writeable and read-only - the SAME 0-d object goes '
+        'to AccSignal(...) and to get_max_tifq_vals_freq and is compared with its entry value after every call and after the '
+        'sequence; three of four sinusoid sequences run the object-purity reads on an object with user-given settings (constructor '
+        'keywords / setters with list, tuple / gen_fa_spectrum(n = npts - 2 or 2 npts + 6)). '
         'distinct = digest(record, options); non-trivial = record with at least two distinct values.')
 ASSUMPTIONS = ['real, finite records of length 4..1024 (complex input, scalars, lengths 1..3 and > 1024 are counted, not judged; '
                'records past 2**16 are not driven: the (n/2 x n) result alone would take 34 GB)',
@@ -123,6 +139,12 @@ ASSUMPTIONS = ['real, finite records of length 4..1024 (complex input, scalars, 
                'multiplied by eps32/eps64; the per-cell bound is GLOBAL (relative to sum|x| of the whole record, as in '
                'DESIGN (d)): with one sample 1e3..1e12 times larger than the rest an FFT-based transform cannot be more '
                'accurate than eps*|spike| anywhere, so no local scale is demanded',
+               'round 5: a 0-d array time step of reduced precision (float32) is judged like a float32 scalar (4*eps32*(N/2) '
+               'relative); a numpy / Python bool step means 1.0; checklist items 29 (one- / two-sample records), 30 (degenerate '
+               'secondary arguments) lie outside the quantifier (lengths 4..1024; the only secondary argument is dt): lengths 1..3 '
+               'stay counted; item 33: the oracle accepts ONE convention throughout (rows Nyquist..first harmonic, conjugate, window '
+               'periodised once, middle half = ceil(N/4)..floor(3N/4)-1); the column-maximum clause accepts any row that attains the '
+               'maximum because the statement fixes no tie rule - degenerate (silent) records are judged by the definition clauses',
                'oracle vf/oracles/stransform.py is correct (vectorised direct sums, cross-checked in every run against the '
                'literal scalar triple loop on short records)']
 MIN_EVALS = {
@@ -144,6 +166,8 @@ MIN_EVALS = {
         'maxfreq(asig)==f.after-mutation[even]': 350, 'maxfreq(asig)==f.after-mutation[odd]': 350,
         'asig.swtf==transform(values)[even]': 1100, 'asig.swtf==transform(values)[odd]': 1100,
         'object-unchanged(get_max_stockwell_freq)': 500, 'result-owns-its-data': 45000,
+        'settings-unchanged(get_max_stockwell_freq)': 380,
+        'dt-unchanged(get_max_tifq_vals_freq)': 800, 'dt-unchanged(get_max_stockwell_freq)': 750,
         'oracle.vectorised==scalar': 8,
         'third-call==first-call(transform)': 450, 'third-call==first-call(transform_w_scipy_fft)': 450,
         'third-call==first-call(itransform)': 950, 'third-call==first-call(get_max_tifq_vals_freq)': 950,
@@ -172,6 +196,8 @@ MIN_EVALS = {
         'maxfreq(asig)==f.after-mutation[even]': 700, 'maxfreq(asig)==f.after-mutation[odd]': 700,
         'asig.swtf==transform(values)[even]': 2200, 'asig.swtf==transform(values)[odd]': 2200,
         'object-unchanged(get_max_stockwell_freq)': 1500, 'result-owns-its-data': 100000,
+        'settings-unchanged(get_max_stockwell_freq)': 2000,
+        'dt-unchanged(get_max_tifq_vals_freq)': 2100, 'dt-unchanged(get_max_stockwell_freq)': 2500,
         'oracle.vectorised==scalar': 8,
         'third-call==first-call(transform)': 900, 'third-call==first-call(transform_w_scipy_fft)': 900,
         'third-call==first-call(itransform)': 1900, 'third-call==first-call(get_max_tifq_vals_freq)': 1900,
@@ -397,23 +423,24 @@ def _seq_linearity(impl, x, y, a, b):
 
 
 def _seq_record(cont, dt, form):
-    rec, kind = np.array(cont), _kind(cont)
+    rec, kind, dt = np.array(cont), _kind(cont), _dt_snap(dt)     # a 0-d step is mutable: the witness keeps the entry value
     return lambda: _raw_wit('record-sequence', rec, kind, dt=dt, dt_form=_dt_form(dt), form=form)
 
 
 def _seq_back_to_back(cont, cont2, dt, tform=None):
-    rec, kind, rec2, kind2 = np.array(cont), _kind(cont), np.array(cont2), _kind(cont2)
+    rec, kind, rec2, kind2, dt = np.array(cont), _kind(cont), np.array(cont2), _kind(cont2), _dt_snap(dt)
     return lambda: _raw_wit('back-to-back', rec, kind, record2=rec2, container2=kind2, dt=dt, dt_form=_dt_form(dt), tform=tform)
 
 
-def _seq_sinusoid(cont, dts, impl, tform):
+def _seq_sinusoid(cont, dts, impl, tform, settings=0):
     rec, kind = np.array(cont), _kind(cont)
-    return lambda: _raw_wit('sinusoid-sequence', rec, kind, dts=list(dts), dt_forms=[_dt_form(d) for d in dts], impl=impl,
-                            tform=tform)
+    dts0 = [_dt_snap(d) for d in dts]
+    return lambda: _raw_wit('sinusoid-sequence', rec, kind, dts=dts0, dt_forms=[_dt_form(d) for d in dts], impl=impl,
+                            tform=tform, settings=settings)
 
 
 def _seq_history(x1, x2, dt, dt2, order, muts=()):
-    p1, p2 = np.array(x1), np.array(x2)
+    p1, p2, dt, dt2 = np.array(x1), np.array(x2), _dt_snap(dt), _dt_snap(dt2)
     return lambda: {'fn': 'history', 'record': p1, 'record2': p2, 'container': 'ndarray:float64', 'dt': dt,
                     'dt_form': _dt_form(dt), 'dt2': dt2, 'dt2_form': _dt_form(dt2), 'order': list(order), 'muts': list(muts)}
 
@@ -449,6 +476,10 @@ def _first_change(obj, snap):
 
 
 def _dt_form(dt):
+    if isinstance(dt, np.ndarray):
+        return '0d:%s%s' % (dt.dtype, '' if dt.flags.writeable else ':readonly')
+    if isinstance(dt, np.bool_):
+        return 'bool_'
     if isinstance(dt, np.generic):
         return str(dt.dtype)
     return type(dt).__name__
@@ -459,7 +490,71 @@ def _dt_build(v, form):
         return float(v)
     if form == 'int':
         return int(v)
+    if form == 'bool':
+        return bool(v)
+    if form == 'bool_':
+        return np.bool_(v)
+    if form.startswith('0d:'):
+        parts = form.split(':')
+        a = np.array(np.asarray(v).item(), dtype=parts[1])
+        if 'readonly' in parts:
+            a.flags.writeable = False
+        return a
     return np.dtype(form).type(v)
+
+
+def _dt_snap(dt):
+    """The value a scalar argument has at call entry: a 0-d array is MUTABLE (`dt /= k` inside a function changes the
+    caller's step), so it is copied like any other array argument; immutable scalars are their own snapshot."""
+    return np.array(dt) if isinstance(dt, np.ndarray) else dt
+
+
+def _fresh(dt):
+    """A private copy of a 0-d step for ONE driver sequence (the driver's own object never reaches the library, so every
+    sequence starts from the drawn value and its witness is self-contained)."""
+    if isinstance(dt, np.ndarray):
+        a = np.array(dt)
+        a.flags.writeable = dt.flags.writeable
+        return a
+    return dt
+
+
+def _dt_unchanged(ctx, fn, dt, snap, wit):
+    """Round 5 (item 28): a scalar argument handed over as a 0-d array is the caller's: bit-for-bit unchanged afterwards."""
+    if isinstance(snap, np.ndarray):
+        ctx.check(isinstance(dt, np.ndarray) and _same_bits(dt, snap), 'dt-unchanged(%s)' % fn, wit,
+                  '%s changed the time step the caller passed as a 0-d array: %r -> %r' % (fn, snap, dt))
+
+
+def scalar_form(rng, j):
+    """A time step in one of the scalar forms of audit item 28 (j cycles through them)."""
+    j = j % 12
+    v = gen.dt(rng)
+    if j == 0:
+        return int(rng.integers(1, 4))
+    if j == 1:
+        return np.float64(v)
+    if j == 2:
+        return np.float32(v)
+    if j == 3:
+        return np.array(v)                               # 0-d float64, mutable
+    if j == 4:
+        return np.int64(rng.integers(1, 4))
+    if j == 5:
+        return np.array(v, dtype=np.float32)             # 0-d float32
+    if j == 6:
+        return np.int32(rng.integers(1, 4))
+    if j == 7:
+        return np.array(int(rng.integers(1, 4)))         # 0-d int64
+    if j == 8:
+        return np.True_                                  # a step of one second, as a numpy bool
+    if j == 9:
+        a = np.array(float(10.0 ** rng.uniform(-9, 3)))  # 0-d, read-only: a function that scales it in place raises
+        a.flags.writeable = False
+        return a
+    if j == 10:
+        return np.array(1.0 / int(rng.integers(2, 1001)))
+    return True                                          # Python bool
 
 
 # ------------------------------------------------------------------------------------------------------ monitors
@@ -529,7 +624,7 @@ def check_maxfreq(ctx, via, rec, kind, dt, amp, result, wit, tag='', amp_is_refe
     if not (dtf > 0 and math.isfinite(dtf)):
         ctx.observe('maxfreq(%s):dt-not-positive-finite' % via)
         return
-    low_dt = isinstance(dt, np.floating) and dt.dtype.itemsize < 8
+    low_dt = isinstance(dt, (np.floating, np.ndarray)) and dt.dtype.kind == 'f' and dt.dtype.itemsize < 8
     # a reduced-precision time step: the frequency axis may be formed in the precision of dt (n steps of rounding)
     low_tol = 4.0 * float(np.finfo(dt.dtype).eps) * max(1, n_pts // 2) if low_dt else 0.0
     grid_tol = low_tol if low_dt else 1e-9
@@ -710,12 +805,12 @@ def _pre_maxfreq_asig(args, kwargs):
     swtf_obj = asig.swtf if had else None
     dig = core.digest(vals0) if vals0 is not None else None
     return had, vals0, (_snapshot(swtf_obj) if had else None), _kind(getattr(asig, 'values', None)), swtf_obj, dig, \
-        _mutation_state(asig, had, swtf_obj, dig)
+        _mutation_state(asig, had, swtf_obj, dig), _dt_snap(getattr(asig, 'dt', None))
 
 
 def _post_maxfreq_asig(args, kwargs, result, pre):
     ctx = CTX
-    had_swtf, vals0, swtf0, vkind, swtf_obj, dig, state = pre
+    had_swtf, vals0, swtf0, vkind, swtf_obj, dig, state, dt = pre     # dt: the object's step at call entry
     asig = args[0] if args else kwargs.get('asig')
     try:
         _AFTER_MUT.pop(asig, None)
@@ -725,13 +820,13 @@ def _post_maxfreq_asig(args, kwargs, result, pre):
     if vals0 is None:
         ctx.observe('maxfreq(asig):unconvertible-input')
         return
-    dt = asig.dt
     wit = lambda: _wit('get_max_stockwell_freq', vals0, vkind, dt=dt, dt_form=_dt_form(dt), preset_swtf=bool(had_swtf))  # noqa
     pure = _same_bits(asig.values, vals0) and (not had_swtf or _same_bits(asig.swtf, swtf0))
     ctx.check(pure, 'argument-unchanged(get_max_stockwell_freq)', wit,
               'get_max_stockwell_freq modified the values or the attached swtf of its signal object: %s'
               % (_first_change(asig.values, vals0) if not _same_bits(asig.values, vals0) else 'swtf changed'))
-    _owns(ctx, 'get_max_stockwell_freq', result, [asig.values, getattr(asig, 'swtf', None)], wit)
+    _owns(ctx, 'get_max_stockwell_freq', result, [asig.values, getattr(asig, 'swtf', None), asig.dt], wit)
+    _dt_unchanged(ctx, 'get_max_stockwell_freq', asig.dt, dt, wit)
     rec, kind, skip = _intake(vals0)
     if skip:
         ctx.observe('maxfreq(asig):%s' % skip)
@@ -778,13 +873,15 @@ def _post_maxfreq_asig(args, kwargs, result, pre):
 
 def _pre_maxfreq_tifq(args, kwargs):
     tifq = args[0] if args else kwargs.get('tifq_values')
-    return _snapshot(tifq)
-
-
-def _post_maxfreq_tifq(args, kwargs, result, snap):
-    ctx = CTX
-    tifq = args[0] if args else kwargs.get('tifq_values')
     dt = args[1] if len(args) > 1 else kwargs.get('dt')
+    return _snapshot(tifq), _dt_snap(dt)
+
+
+def _post_maxfreq_tifq(args, kwargs, result, pre):
+    ctx = CTX
+    snap, dt = pre               # dt: the value the step had at call entry (a 0-d array is mutable)
+    tifq = args[0] if args else kwargs.get('tifq_values')
+    dt_now = args[1] if len(args) > 1 else kwargs.get('dt')
     info = REG.get(tifq)
     if info is None:
         ctx.observe('maxfreq(tifq):input-of-unknown-provenance')
@@ -794,7 +891,8 @@ def _post_maxfreq_tifq(args, kwargs, result, snap):
                        derived=info.get('derived'))
     ctx.check(_same_bits(tifq, snap), 'argument-unchanged(get_max_tifq_vals_freq)', wit,
               'get_max_tifq_vals_freq modified its time-frequency argument: %s' % _first_change(tifq, snap))
-    _owns(ctx, 'get_max_tifq_vals_freq', result, [tifq], wit)
+    _owns(ctx, 'get_max_tifq_vals_freq', result, [tifq, dt_now], wit)
+    _dt_unchanged(ctx, 'get_max_tifq_vals_freq', dt_now, dt, wit)
     check_maxfreq(ctx, 'tifq', rec, kind, dt, np.abs(np.asarray(snap)), result, wit)
 
 
@@ -833,7 +931,17 @@ def _transform_form(f, cont, form):
         return f(acc=cont)
     if form == 2:
         return f(cont, False)
-    return f(cont, interp=False)
+    if form == 3:
+        return f(cont, interp=False)
+    # round 5 (item 28): the flag at its default value in the forms a caller's own arithmetic produces (`flag is False` and
+    # `flag == False` on a 0-d array behave differently from plain truth testing)
+    if form == 4:
+        return f(cont, np.False_)
+    if form == 5:
+        return f(cont, interp=np.array(False))
+    if form == 6:
+        return f(cont, 0)
+    return f(acc=cont, interp=np.bool_(False))
 
 
 def _purity(ctx, obj, pristine, wit, what):
@@ -878,8 +986,9 @@ def drive_record(ctx, eqsig, cont, dt, form):
     s1 = _call(ctx, 'transform==definition[%s]' % par, lambda: _wit('transform', rec, kind), _transform_form, sw.transform,
                cont, form % 4)
     s2 = _call(ctx, 'transform_w_scipy_fft==definition[%s]' % par, lambda: _wit('transform_w_scipy_fft', rec, kind),
-               _transform_form, sw.transform_w_scipy_fft, cont, (form // 4) % 4)
-    s3 = _call(ctx, 'transform==definition[%s]' % par, lambda: _wit('transform', rec, kind), sw.transform, cont)
+               _transform_form, sw.transform_w_scipy_fft, cont, (form // 4) % 8)
+    s3 = _call(ctx, 'transform==definition[%s]' % par, lambda: _wit('transform', rec, kind), _transform_form,
+               sw.transform, cont, 4 + (form // 3) % 4)
     if s3 is not None:      # third call on the same object: judged against the values the argument had BEFORE the first call
         check_transform(ctx, 'transform', rec, kind, s3, lambda: _wit('record-sequence', rec, kind, dt=dt, form=form),
                         'third call on one argument object, judged against its values before the first call: ')
@@ -904,9 +1013,27 @@ def drive_record(ctx, eqsig, cont, dt, form):
         wit = lambda: _wit('get_max_tifq_vals_freq', rec, kind, dt=dt, dt_form=_dt_form(dt),   # noqa
                            impl=IMPLS[1] if other is s2 else IMPLS[0], derived=how)
         if (form // 5) % 2:
-            _call(ctx, 'maxfreq(tifq).is-frequency-of-column-max[%s]' % par, wit, sw.get_max_tifq_vals_freq, tifq_values=t, dt=dt)
+            mf = _call(ctx, 'maxfreq(tifq).is-frequency-of-column-max[%s]' % par, wit, sw.get_max_tifq_vals_freq, tifq_values=t, dt=dt)
         else:
+            mf = _call(ctx, 'maxfreq(tifq).is-frequency-of-column-max[%s]' % par, wit, sw.get_max_tifq_vals_freq, t, dt)
+        # round 5 (item 32): a result belongs to the caller - the trace is overwritten, then the same call is made again
+        if isinstance(mf, np.ndarray) and mf.flags.writeable:
+            mf[...] = -7.0
             _call(ctx, 'maxfreq(tifq).is-frequency-of-column-max[%s]' % par, wit, sw.get_max_tifq_vals_freq, t, dt)
+    if form % 2:
+        # ... and so do the transforms: every array handed out so far is overwritten, then both are asked for again
+        for arr in (s1, s2, s3):
+            if isinstance(arr, np.ndarray) and arr.flags.writeable:
+                arr[...] = 1e300 + 1e300j
+        for impl in IMPLS:
+            s4 = _call(ctx, '%s==definition[%s]' % (impl, par), lambda: _wit(impl, rec, kind), getattr(sw, impl), cont)
+            if s4 is not None and impl == inv_impl:
+                inv = _call(ctx, 'inverse==record-mean-nyquist[%s]' % par, lambda: _wit('itransform', rec, kind, impl=impl),
+                            sw.itransform, s4)
+                if isinstance(inv, np.ndarray) and inv.flags.writeable:
+                    inv[...] = 1e300
+                    _call(ctx, 'inverse==record-mean-nyquist[%s]' % par, lambda: _wit('itransform', rec, kind, impl=impl),
+                          sw.itransform, s4)
 
 
 @_as_sequence(_seq_back_to_back)
@@ -965,12 +1092,14 @@ def drive_back_to_back(ctx, eqsig, cont, cont2, dt, tform=None):
 
 
 @_as_sequence(_seq_sinusoid)
-def drive_sinusoid(ctx, eqsig, cont, dts, impl, tform):
+def drive_sinusoid(ctx, eqsig, cont, dts, impl, tform, settings=0):
     """One sinusoid record (one argument object) through transform, inverse, get_max_stockwell_freq(AccSignal) and
-    get_max_tifq_vals_freq for every dt."""
+    get_max_tifq_vals_freq for every dt (each dt object first to the constructor, then to the array-level helper: a 0-d
+    array must still hold the caller's value at the end)."""
     sw = eqsig.stockwell
     kind = _kind(cont)
     rec = np.array(cont)
+    dts0 = [_dt_snap(d) for d in dts]
     par = _par(len(rec))
     first = _call(ctx, '%s==definition[%s]' % (impl, par), lambda: _wit(impl, rec, kind), getattr(sw, impl), cont)
     if isinstance(first, np.ndarray):
@@ -983,7 +1112,7 @@ def drive_sinusoid(ctx, eqsig, cont, dts, impl, tform):
             inv[...] = 0
         _call(ctx, 'inverse==record-mean-nyquist[%s]' % par, lambda: _wit('itransform', rec, kind, impl=impl), sw.itransform, s)
     try:
-        drive_object_purity(ctx, eqsig, cont, dts[0], _SEQ[-1])
+        drive_object_purity(ctx, eqsig, cont, dts[0], _SEQ[-1], settings)
     except Exception as ex:   # noqa
         ctx.exception('object-unchanged(get_max_stockwell_freq)', _SEQ[-1](), ex)
     if s is not None:
@@ -1002,11 +1131,16 @@ def drive_sinusoid(ctx, eqsig, cont, dts, impl, tform):
         if t is not None:
             wit2 = lambda: _wit('get_max_tifq_vals_freq', rec, kind, dt=dt, dt_form=_dt_form(dt), impl=impl, derived=tform)  # noqa
             if i % 3 == 2:
-                _call(ctx, 'maxfreq(tifq)==f.middle-half[%s]' % par, wit2, sw.get_max_tifq_vals_freq, tifq_values=t, dt=dt)
+                mf = _call(ctx, 'maxfreq(tifq)==f.middle-half[%s]' % par, wit2, sw.get_max_tifq_vals_freq, tifq_values=t, dt=dt)
             else:
+                mf = _call(ctx, 'maxfreq(tifq)==f.middle-half[%s]' % par, wit2, sw.get_max_tifq_vals_freq, t, dt)
+            if i == 0 and isinstance(mf, np.ndarray) and mf.flags.writeable:
+                mf[...] = 0.0              # (item 32) the caller owns the trace: overwrite it, ask again
                 _call(ctx, 'maxfreq(tifq)==f.middle-half[%s]' % par, wit2, sw.get_max_tifq_vals_freq, t, dt)
-    _purity(ctx, cont, rec, lambda: _wit('sinusoid-sequence', rec, kind, dts=[float(d) for d in dts], impl=impl, tform=tform),
-            'the sinusoid record (%s)' % kind)
+    _purity(ctx, cont, rec, _SEQ[-1], 'the sinusoid record (%s)' % kind)
+    for d, d0 in zip(dts, dts0):
+        if isinstance(d0, np.ndarray):
+            _purity(ctx, d, d0, _SEQ[-1], 'the time step passed as a 0-d array (%s)' % _dt_form(d0))
 
 
 MUTATORS = ('add_constant', 'add_series', 'remove_average', 'remove_poly', 'butter_pass', 'running_average', 'reset_same',
@@ -1173,6 +1307,7 @@ REJECTED = {'rejected:scalar': 5.0, 'rejected:string': 'record', 'rejected:lengt
 def _seq_aba(cont, cont2, dt, impl, bkind):
     rec, kind = np.array(cont), _kind(cont)
     rec2 = np.array(cont2) if cont2 is not None else np.zeros(0)
+    dt = _dt_snap(dt)
     return lambda: _raw_wit('aba', rec, kind, record2=rec2, dt=dt, dt_form=_dt_form(dt), impl=impl, bkind=bkind)
 
 
@@ -1329,7 +1464,7 @@ def make_plan(rng, idx, n):
 
 
 def _seq_protocols(cont, x2, dt, plan):
-    rec, kind, p2 = np.array(cont), _kind(cont), np.array(x2)
+    rec, kind, p2, dt = np.array(cont), _kind(cont), np.array(x2), _dt_snap(dt)
     return lambda: _raw_wit('protocols', rec, kind, record2=p2, dt=dt, dt_form=_dt_form(dt), plan=plan)
 
 
@@ -1587,7 +1722,11 @@ def drive_out_of_domain(ctx, eqsig, rng):
 
 
 OBSERVABLES = ('values', 'dt', 'npts', 'label', 'time', 'fa_spectrum', 'fa_frequencies', 'smooth_fa_freqs', 'response_times',
-               'pga')
+               'pga', 'smooth_fa_frequencies', 'fa_freqs')
+
+
+SETTINGS = ('dt', 'label', 'smooth_fa_freqs', 'smooth_fa_frequencies', 'response_times', 'fa_spectrum', 'fa_frequencies',
+            'fa_freqs')
 
 
 def _observables(asig):
@@ -1606,11 +1745,28 @@ def _observables(asig):
     return out
 
 
-def drive_object_purity(ctx, eqsig, cont, dt, wit):
+def drive_object_purity(ctx, eqsig, cont, dt, wit, settings=0):
     """get_max_stockwell_freq on one object: every public observable unchanged (first call and call on the memoised swtf);
-    the caller clobbers the returned trace in place and calls again (judged online)."""
+    the caller clobbers the returned trace in place and calls again (judged online).
+    Round 5 (item 31): reads must not change settings. settings 1: smoothing frequencies and response periods given to the
+    constructor, partly outside the band of the data (targets above the Nyquist frequency, periods below 2 dt); 2: the same
+    through the setters (list / tuple) plus a Fourier spectrum on an explicitly requested grid (n not a power of two, shorter
+    than the record every other time); 3: explicit grid only. Whatever the classes make of such settings is other
+    properties' business: here they must be the same before and after the Stockwell reads."""
     sw = eqsig.stockwell
-    asig = eqsig.AccSignal(cont, dt)
+    dtf = float(dt)
+    n = len(cont)
+    above = [0.05 / dtf, 0.3 / dtf, 0.5 / dtf, 0.7 / dtf, 2.0 / dtf]        # Nyquist = 0.5 / dt
+    below = [0.5 * dtf, 1.5 * dtf, 2.0 * dtf, 10.0 * dtf]                   # periods below / at 2 dt
+    if settings == 1:
+        asig = eqsig.AccSignal(cont, dt, smooth_fa_freqs=np.array(above), response_times=np.array(below))
+    else:
+        asig = eqsig.AccSignal(cont, dt)
+    if settings == 2:
+        asig.smooth_fa_freqs = above[1:] if n % 2 else tuple(above[:4])
+        asig.response_times = tuple(below[:3]) if n % 2 else list(below)
+    if settings in (2, 3):
+        asig.gen_fa_spectrum(n=(n - 2 if (n // 2) % 2 else 2 * n + 6))
     before = _observables(asig)
     r = sw.get_max_stockwell_freq(asig)
     r2 = sw.get_max_stockwell_freq(asig)
@@ -1618,6 +1774,12 @@ def drive_object_purity(ctx, eqsig, cont, dt, wit):
     changed = [k for k in before if not _same_bits(after[k], before[k])]
     ctx.check(not changed, 'object-unchanged(get_max_stockwell_freq)', wit,
               'public observables of the signal object changed by get_max_stockwell_freq: %s' % ', '.join(changed))
+    if settings:
+        lost = [k for k in changed if k in SETTINGS]
+        ctx.check(not lost, 'settings-unchanged(get_max_stockwell_freq)', wit,
+                  'user-given settings of the signal object (variant %d: smoothing frequencies / response periods outside the '
+                  'band of the data, explicitly requested spectrum grid) are not what they were after get_max_stockwell_freq: %s'
+                  % (settings, ', '.join('%s %s' % (k, _first_change(after[k], before[k])) for k in lost)))
     for arr in (r, r2):
         if isinstance(arr, np.ndarray) and arr.flags.writeable:
             arr[...] = -1.0            # the caller owns what was returned
@@ -1673,7 +1835,8 @@ def sinusoid_container(rng, x, sel):
 def draw_dts(rng, idx, count, n_pts=None):
     """count time steps cycling deterministically through the nice decimals and the 1/k floor-trap list (so that every
     listed value meets many lengths), plus 1/k for random integer k, log-uniform draws over three ranges, and the scalar
-    forms Python int, numpy float64 and numpy float32."""
+    forms of scalar_form (Python int / bool, numpy float64 / float32 / int64 / int32 / bool_, 0-d arrays of float64 / float32 /
+    int64, writeable and read-only)."""
     out = []
     for c in range(count):
         sel = c % 8
@@ -1696,15 +1859,7 @@ def draw_dts(rng, idx, count, n_pts=None):
             else:
                 out.append(float(10.0 ** rng.uniform(-4, 1)))
         else:
-            form = (idx + c // 8) % 4
-            if form == 0:
-                out.append(int(rng.integers(1, 4)))
-            elif form == 1:
-                out.append(np.float64(gen.dt(rng)))
-            elif form == 2:
-                out.append(np.float32(gen.dt(rng)))
-            else:
-                out.append(float(10.0 ** rng.uniform(-9, 3)))
+            out.append(scalar_form(rng, idx // 2 + idx // 24 + c // 8))
     return out
 
 
@@ -1831,9 +1986,21 @@ def make_record(rng, n, cls):
 
 def to_container(rng, x, sel):
     """(container, short name). sel cycles through every dtype / container / layout form of the audit list."""
-    sel = sel % 20
+    sel = sel % 23
     if sel in (0, 1, 2, 3, 4, 5):
         return x, 'f64'
+    if sel in (20, 21, 22):
+        # round 5 (item 29): bool-dtype records (on/off channel, rectangular pulses). The library casts kind 'b' to float
+        # on purpose; NumPy itself adds bools with OR and refuses to subtract them
+        lo, hi = float(np.min(x)), float(np.max(x))
+        b = (x > np.median(x)) if hi > lo else (x != 0)
+        if sel == 20:
+            return b, 'bool'
+        if sel == 21:
+            return [bool(v) for v in b], 'list-bool'
+        b = np.array(b)
+        b.flags.writeable = False
+        return b, 'bool-readonly'
     if sel == 6:
         return [float(v) for v in x], 'list'
     if sel == 7:
@@ -1899,18 +2066,23 @@ def run_item(ctx, eqsig, rng, idx, item):
         if cls in ('silent', 'last-only') and np.asarray(cont).dtype.kind == 'u':
             udt = np.asarray(cont).dtype      # the affine map onto an unsigned range would turn the zeros into counts
             cont = np.where(x != 0, np.iinfo(udt).max, 0).astype(udt)
+        if cls in ('silent', 'last-only') and ck.startswith('bool'):      # the threshold would lose a negative last sample
+            cont = (x != 0)
+            cont.flags.writeable = ck != 'bool-readonly'
+        elif cls in ('silent', 'last-only') and ck == 'list-bool':
+            cont = [bool(v) for v in x != 0]
         dt = draw_dts(rng, idx, 8, 2 * (n // 2))[idx % 8]
         rec = np.array(cont)
         ctx.case(core.digest(rec, ck, float(dt), 'def'), nontrivial=len(set(rec.tolist())) > 1,
                  cls='def-%s-%s-%s' % (cls, ck, _par(n)),
                  sample={'fn': 'transform+transform_w_scipy_fft+itransform+get_max_tifq_vals_freq, then a second record',
                          'n': n, 'class': cls, 'container': ck, 'dt': float(dt), 'head': rec[:6]})
-        drive_record(ctx, eqsig, cont, dt, idx)
+        drive_record(ctx, eqsig, cont, _fresh(dt), idx)
         ycls = ['noise', 'quake', 'walk', 'chirp'][int(rng.integers(4))]
         y, _ = gen.record(rng, n, cls=ycls)
         if idx % 3 == 0 or idx % 12 == 1:
             y = y / float(np.max(np.abs(y)) or 1.0) * float(np.max(np.abs(rec.astype(float))) or 1.0)   # scale of the first record
-        drive_back_to_back(ctx, eqsig, cont, y, dt, TIFQ_FORMS[idx % len(TIFQ_FORMS)])
+        drive_back_to_back(ctx, eqsig, cont, y, _fresh(dt), TIFQ_FORMS[idx % len(TIFQ_FORMS)])
         # (25) f(A); f(B); f(A): B of the same shape / another shape / with nan or inf / an input the library rejects
         bkind = B_KINDS[(idx + c) % len(B_KINDS)]
         b = None
@@ -1925,13 +2097,13 @@ def run_item(ctx, eqsig, rng, idx, item):
         elif bkind == 'non-finite':
             b = y.copy()
             b[int(rng.integers(n))] = [float('nan'), float('inf'), -float('inf')][int(rng.integers(3))]
-        drive_aba(ctx, eqsig, cont, b, dt, IMPLS[(idx // 2) % 2], bkind)
+        drive_aba(ctx, eqsig, cont, b, _fresh(dt), IMPLS[(idx // 2) % 2], bkind)
         # (22, 23, 24) object protocols, attribute assignment, refused operations: on every record class and length
         if (c + n) % 8 == 3:
             plan = make_plan(rng, idx + c, n)
             ctx.case(core.digest(rec, y, 'protocols', plan), nontrivial=len(set(rec.tolist())) > 1,
                      cls='protocols-%s-%s-%s' % (plan['proto'], plan['warm'], plan['obj']))
-            drive_protocols(ctx, eqsig, cont, y, dt, plan)
+            drive_protocols(ctx, eqsig, cont, y, _fresh(dt), plan)
         # linearity on float64 records: every second case up to length 64, every case above
         if n <= 64 and c % 2 == 0 or n > 64:
             xf = np.asarray(rec, dtype=float)
@@ -1965,18 +2137,22 @@ def run_item(ctx, eqsig, rng, idx, item):
         dts = draw_dts(rng, idx * 3 + r, ndt, 2 * (length // 2))
         if ndt < 7:      # short lists never reach the awkward slot: put one in
             dts[-1] = gen.awkward_dt(rng, (length // 2) if r % 2 else 2 * (length // 2))
+            if idx % 3 == 0:                 # ... nor the scalar-form slot (round 5, item 28)
+                dts[0] = scalar_form(rng, idx // 3)
+        settings = (idx + r) % 4
         impl = IMPLS[r % 2] if kind == 'sin-everyN' else (IMPLS[0] if idx % 3 else IMPLS[1])   # tifq path only
         tform = TIFQ_FORMS[(idx + r) % len(TIFQ_FORMS)]
-        ctx.case(core.digest(x, [float(d) for d in dts], impl, tform), nontrivial=True,
+        ctx.case(core.digest(x, [float(d) for d in dts], [_dt_form(d) for d in dts], impl, tform, settings), nontrivial=True,
                  cls='%s-%s-%s' % (kind, _kind(cont).replace('ndarray:', ''), _par(length)),
                  sample={'fn': 'get_max_stockwell_freq(AccSignal)+get_max_tifq_vals_freq', 'n': length, 'harmonic': k,
-                         'dts': [float(d) for d in dts], 'impl': impl, 'tifq_form': tform, 'head': x[:6]})
-        drive_sinusoid(ctx, eqsig, cont, dts, impl, tform)
+                         'dts': [float(d) for d in dts], 'dt_forms': [_dt_form(d) for d in dts], 'impl': impl,
+                         'tifq_form': tform, 'settings': settings, 'head': x[:6]})
+        drive_sinusoid(ctx, eqsig, cont, [_fresh(d) for d in dts], impl, tform, settings)
     if kind == 'sin-everyN':
         dts = draw_dts(rng, idx, 8, 2 * (length // 2))
         # two sinusoids of the same length back to back (micro amplitude first every third time), then one object history
         first = xs[0] if idx % 3 else sinusoid(rng, length, ks[0], amp=10.0 ** rng.uniform(-12, -9))
-        drive_back_to_back(ctx, eqsig, first, xs[1], dts[idx % 8], TIFQ_FORMS[(idx // 2) % len(TIFQ_FORMS)])
+        drive_back_to_back(ctx, eqsig, first, xs[1], _fresh(dts[idx % 8]), TIFQ_FORMS[(idx // 2) % len(TIFQ_FORMS)])
         order = [['repeat', 'twin', 'read', 'clone', 'preset'][int(i)] for i in rng.permutation(5)]
         order += [order[int(rng.integers(5))]]
         ctx.case(core.digest(xs[2], xs[1], 'history', order), nontrivial=True, cls='history-%s' % _par(length))
@@ -2000,9 +2176,9 @@ def run_item(ctx, eqsig, rng, idx, item):
                  cls='protocols-%s-%s-%s' % (plan['proto'], plan['warm'], plan['obj']),
                  sample={'fn': 'copy/deepcopy/pickle + reads, resets, mutators, assignments, refused operations', 'n': length,
                          'plan': plan})
-        drive_protocols(ctx, eqsig, c1, c2, dts[(idx + 4) % 8], plan)
+        drive_protocols(ctx, eqsig, c1, c2, _fresh(dts[(idx + 4) % 8]), plan)
         muts = [MUTATORS[int(i)] for i in rng.permutation(len(MUTATORS))[:3]]
-        drive_history(ctx, eqsig, xs[2].copy(), xs[1].copy(), dts[(idx + 1) % 8], dts[(idx + 2) % 8], order, muts)
+        drive_history(ctx, eqsig, xs[2].copy(), xs[1].copy(), _fresh(dts[(idx + 1) % 8]), _fresh(dts[(idx + 2) % 8]), order, muts)
 
 
 def oracle_selfcheck(ctx, rng):
@@ -2089,7 +2265,7 @@ def replay(w):
             dts = w.get('dts', [0.01])
             forms = w.get('dt_forms') or [None] * len(dts)
             drive_sinusoid(ctx, eqsig, _container(rec, kind), [_dt_build(d, f) for d, f in zip(dts, forms)],
-                           w.get('impl', 'transform'), w.get('tform'))
+                           w.get('impl', 'transform'), w.get('tform'), int(w.get('settings', 0)))
         elif fn == 'combine':
             drive_combine(ctx, eqsig, np.array(rec, dtype=float), np.array(w['record2'], dtype=float), dt, w.get('angles', [180]),
                           w.get('analysed', 'both'), w.get('extras', True))
